@@ -36,6 +36,10 @@ ListShapes ==
      texlens |-> << >>, grplens |-> << >>, ddlens |-> << >>] :
      v \in {VClassic, VMop}, pv \in InnerPats(2, 4) \cup InnerPats(3, 4) \cup {<< >>},
      vb \in InnerPats(2, 3) \cup InnerPats(3, 3) \cup {<< >>} }
+ASSUME PortalRingsOk
+ASSUME PortalMutantsRejected
+ASSUME BspCatalogOk
+ASSUME BspMutantsRejected
 Init == LInit(RootShapes \cup GroupShapes \cup ListShapes)
 Next == LNext
 =============================================================================
